@@ -3,6 +3,7 @@ import Model.Proc.FilterEval
 import Model.Spec.FilterSem
 import Model.Proc.FilterText
 import Model.Proc.FilterHeap
+import Model.Spec.LitRegexp
 
 namespace Driver.C06
 open Proto Proc.FilterEval
@@ -142,6 +143,23 @@ def handle (l : Line) : IO Unit := do
   let rsrc := ((l.hexList? "rsrc").getD []).zipIdx
   let reT : ReOracle := fun i v =>
     rsrc.any fun sj => Proc.FilterText.reId sj.1 == i && table.any fun t => t.1 == sj.2 && t.2.1 == v && t.2.2
+  -- S: regexp leaves of the literal sub-language (^?literal$?, \A…\z, (?:…)) are judged by the
+  -- Lean matcher Spec.LitRegexp, all others by the regexp oracle; lmiss counts oracle entries that
+  -- disagree with the Lean matcher (validates the matcher against Go's regexp on every run)
+  let litTab : List (Nat × Bytes × Spec.LitRegexp.LitRe) :=
+    rsrc.filterMap fun sj => (Spec.LitRegexp.parse sj.1).map fun r => (sj.2, sj.1, r)
+  let reS : ReOracle := fun i v =>
+    match litTab.find? (·.1 == i) with
+    | some e => e.2.2.matches v
+    | none => re i v
+  let reST : ReOracle := fun i v =>
+    match litTab.find? (fun e => Proc.FilterText.reId e.2.1 == i) with
+    | some e => e.2.2.matches v
+    | none => reT i v
+  let lmiss := (table.filter fun t =>
+    match litTab.find? (·.1 == t.1) with
+    | some e => e.2.2.matches t.2.1 != t.2.2
+    | none => false).length
   let textFn := Proc.FilterText.newFilterText cx reT text
   let tnew := match textFn with
     | .ok _ => "ok"
@@ -195,13 +213,13 @@ def handle (l : Line) : IO Unit := do
         let m1 := r1.1.read r2.2
         let m2 := r2.1.read r2.2
         s!"htest={bits n m1.test}/{bits n m2.test}"
-    IO.println s!"obs {id} new=ok tnew={tnew} perr=none pv={showHexList pv} n={n} test={bits n mt.test} oob={oob} all={b01 mt.all} any={b01 mt.any} apply={showIdx ap.1} flag={b01 ap.2} fapply={showIdx ap2.1.values} fflag={b01 ap2.2} omiss={omiss} glue=ok {tfields} {hfield}"
+    IO.println s!"obs {id} new=ok tnew={tnew} perr=none pv={showHexList pv} n={n} test={bits n mt.test} oob={oob} all={b01 mt.all} any={b01 mt.any} apply={showIdx ap.1} flag={b01 ap.2} fapply={showIdx ap2.1.values} fflag={b01 ap2.2} omiss={omiss} lmiss={lmiss} glue=ok {tfields} {hfield}"
     -- S layer: the specification
     -- the meaning of the expression TEXT: the tree of the parser model when it accepts the text
     -- (so that a parser that builds another tree is judged wrong), else the tree that was sent
     let denTree : Nat → Bool := match Proc.FilterText.filterOfText cx text with
-      | .ok tT => fun i => Spec.FilterSem.denote reT res i tT
-      | .error _ => fun i => Spec.FilterSem.denote re res i e
+      | .ok tT => fun i => Spec.FilterSem.denote reST res i tT
+      | .error _ => fun i => Spec.FilterSem.denote reS res i e
     let fixedOK := projs.flatten.all fun fld => Spec.FilterSem.inFixed excl fld res
     let den : Nat → Bool := fun i => denTree i && fixedOK
     let keptS := Spec.FilterSem.keepIdx den res.values
